@@ -8,6 +8,9 @@
 #include "c09_common.h"
 #include "mc.hpp"
 
+#ifndef C09_COMPILER
+#define C09_COMPILER "?"
+#endif
 #ifndef PART
 #define PART 0
 #endif
@@ -46,19 +49,41 @@ namespace
         static const char *c09_name() { return "Custom{i16,string}"; }
     };
 
+    // a user type whose reflect() carries fixed-size raw blocks, the library's way to put C arrays into a
+    // struct's image: archive::data<T>(ptr, n) and r.do_data(ptr, bytes). Stated layout: the element images, no count.
+    struct RawBlk
+    {
+        u8 tag = 0;
+        float arr[2] = {0, 0};
+        u8 mac[2] = {0, 0};
+        u16 tail = 0;
+        template <class R> void reflect(R &r)
+        {
+            r &tag;
+            r &igris::archive::data<float>(arr, 2);
+            r.do_data((char *)mac, 2);
+            r &tail;
+        }
+        auto fields() { return std::tie(tag, arr[0], arr[1], mac[0], mac[1], tail); }
+        auto fields() const { return std::tie(tag, arr[0], arr[1], mac[0], mac[1], tail); }
+        static const char *c09_name() { return "RawBlk{u8,data<float>[2],do_data u8[2],u16}"; }
+    };
+
     typedef TL<i8, i16, i32, i64, u8, u16, u32, u64, f32, f64, ld, str> L0;
     typedef TL<std::pair<u8, i32>, std::pair<str, u16>, std::pair<f64, str>, std::pair<i64, i8>, //
                std::tuple<i8>, TIDS, std::tuple<u16, u16, u16, u16>, std::tuple<str, str>,        //
                std::map<u8, u8>, std::map<str, i32>, std::map<i32, str>, std::map<u16, f32>, std::map<str, str>, //
                RPad, RStr, RDbl, RSIS, Plain, Custom, //
-               std::pair<ld, i32>, std::tuple<u8, ld, u16>, Rec<ld, u8>, std::map<u8, ld>, DefaultedO, DefaultedN>
+               std::pair<ld, i32>, std::tuple<u8, ld, u16>, Rec<ld, u8>, std::map<u8, ld>, DefaultedO, DefaultedN, //
+               RawBlk, std::pair<u16, u16>, std::pair<u8, u32>, std::pair<str, i32>>
         L1x;
     typedef Cat<VecOf<L0>::type, L1x>::type L1;
     typedef TL<std::pair<std::vector<u16>, std::vector<str>>, std::pair<str, std::vector<u16>>, std::pair<RPad, std::map<u8, u8>>, //
                std::tuple<std::vector<u8>, str, std::pair<u8, i32>>, std::tuple<std::map<str, i32>, RStr>,                      //
                std::map<str, std::vector<u16>>, std::map<i32, std::vector<u16>>, std::map<str, TIDS>, std::map<u8, std::pair<str, u16>>,
                std::map<u16, RPad>, std::map<std::pair<u8, u8>, str>, std::map<std::vector<u8>, u8>, //
-               Rec<std::vector<u16>, str>, Rec<RPad, u8>, Rec<std::pair<str, u16>, std::map<u8, u8>>, Rec<TIDS>, Rec<Plain, i8>, std::map<u8, Custom>, Rec<Custom, u8>, std::map<u8, DefaultedO>, Rec<DefaultedO, str>>
+               Rec<std::vector<u16>, str>, Rec<RPad, u8>, Rec<std::pair<str, u16>, std::map<u8, u8>>, Rec<TIDS>, Rec<Plain, i8>, std::map<u8, Custom>, Rec<Custom, u8>, std::map<u8, DefaultedO>, Rec<DefaultedO, str>, //
+               std::pair<std::pair<u8, u32>, std::pair<str, i32>>, std::map<u8, std::pair<u8, u32>>, std::map<str, RawBlk>, Rec<RawBlk, str>>
         L2x;
     typedef Cat<VecOf<L1>::type, L2x>::type L2;
     typedef TL<std::vector<std::vector<std::vector<u8>>>, std::vector<std::vector<std::vector<i32>>>, std::vector<std::vector<std::vector<str>>>,
@@ -187,7 +212,7 @@ namespace
             T w = make<T>(0, (i + 1) % n); // the value that follows in the concatenation
             std::string ref;
             ref_enc(ref, v);
-            mc::describe("old %s value #%ld/%ld stated-layout bytes %s (%zu)", tn.c_str(), i, n, hexs(ref).c_str(), ref.size());
+            mc::describe("old[" C09_COMPILER "] %s value #%ld/%ld stated-layout bytes %s (%zu)", tn.c_str(), i, n, hexs(ref).c_str(), ref.size());
             if (!is_scalar_v<T> && ref.size() > 2)
                 mc::nontrivial();
             std::vector<T> receivers;
@@ -359,6 +384,73 @@ namespace
     }
 }
 
+namespace
+{
+    // ---- igris::archive::data<T>(ptr, n) as a value of its own: the raw image of n elements, no count ----
+    template <class T> void raw_block(size_t n, int pat)
+    {
+        std::vector<T> src(n), dst(n, scalar_value<T>(1));
+        for (size_t k = 0; k < n; k++)
+            src[k] = pat == 0 ? (T)(k * 7 + 1) : scalar_value<T>((int)(k % 6));
+        std::string ref, tn = "data<" + tname<T>() + ">";
+        for (size_t k = 0; k < n; k++)
+            ref_enc(ref, src[k]);
+        mc::describe("old[" C09_COMPILER "] archive::%s x %zu, pattern %d (%zu bytes)", tn.c_str(), n, pat, ref.size());
+        if (n)
+            mc::nontrivial();
+        mc::crash_context("C09.old.serialize.raw_block");
+        Exact in((const char *)src.data(), n * sizeof(T)); // exactly-sized source: an over-read of the block is a report
+        std::string enc = igris::serialize(igris::archive::data<T>((const T *)in.p, n));
+        std::string twice = enc + igris::serialize(igris::archive::data<T>((const T *)in.p, n));
+        mc::outcome(mc::fmt("raw/%s/%zu", tn.c_str(), enc.size()));
+        if (enc != ref)
+            mc::violation("C09.old.layout.raw_block", "%s x %zu: serialize gives %zu bytes %s, the element images are %zu bytes %s", tn.c_str(), n,
+                          enc.size(), hexs(enc, 24).c_str(), ref.size(), hexs(ref, 24).c_str());
+        Exact e(twice.data(), twice.size());
+        Exact out(n * sizeof(T), 0xEE), out2(n * sizeof(T), 0xEE);
+        igris::archive::binary_buffer_reader reader(e.p, e.n);
+        mc::crash_context("C09.old.decode.raw_block");
+        igris::archive::data<T> d1((T *)out.p, n), d2((T *)out2.p, n);
+        igris::deserialize(reader, d1);
+        long mid = (const char *)reader.pointer() - e.p;
+        igris::deserialize(reader, d2);
+        long used = (const char *)reader.pointer() - e.p;
+        bool ok1 = memcmp(out.p, src.data(), n * sizeof(T)) == 0, ok2 = memcmp(out2.p, src.data(), n * sizeof(T)) == 0;
+        if (!ok1 || !ok2 || mid != (long)enc.size() || used != (long)twice.size())
+            mc::violation("C09.old.roundtrip.raw_block", "%s x %zu twice: blocks %s/%s, consumed %ld then %ld of %zu", tn.c_str(), n, ok1 ? "ok" : "WRONG",
+                          ok2 ? "ok" : "WRONG", mid, used, twice.size());
+        mc::crash_context("C09.old.harness");
+    }
+    static void raw_blocks_case()
+    {
+        static const size_t N[] = {0, 1, 2, 3, 127, 128, 255, 256, 257, 4095};
+        int c = mc::choose(10 * 6);
+        int pat = mc::choose(2);
+        size_t n = N[c / 6];
+        switch (c % 6)
+        {
+        case 0:
+            raw_block<u8>(c / 6 == 9 ? 65535 : n, pat); // largest block the 16-bit byte count of do_data can carry
+            break;
+        case 1:
+            raw_block<u16>(c / 6 == 9 ? 32767 : n, pat);
+            break;
+        case 2:
+            raw_block<i32>(n, pat);
+            break;
+        case 3:
+            raw_block<u64>(n, pat);
+            break;
+        case 4:
+            raw_block<f32>(n, pat);
+            break;
+        default:
+            raw_block<f64>(n, pat);
+            break;
+        }
+    }
+}
+
 #ifdef EXTRAS
 const char *const c09::framework = "old";
 #endif
@@ -426,6 +518,25 @@ MC_INIT
                              golden<Custom>("Custom{-2,\"xy\"}", c, B("\xfe\xff\x02\x00xy"));
                          }});
     mc::add_check("old.buffers", buffers_case);
+    mc::add_check("old.raw_blocks", raw_blocks_case);
+    goldens().push_back({"RawBlk", [] {
+                             RawBlk b;
+                             b.tag = 7;
+                             b.arr[0] = 1.0f;
+                             b.arr[1] = -2.5f;
+                             b.mac[0] = 0xAA;
+                             b.mac[1] = 0xBB;
+                             b.tail = 0x0102;
+                             golden<RawBlk>("RawBlk{7,{1.0f,-2.5f},{aa,bb},0x0102}", b,
+                                            B("\x07\x00\x00\x80\x3f\x00\x00\x20\xc0\xaa\xbb\x02\x01"));
+                         }});
+    goldens().push_back({"pair<string,i32>", [] {
+                             golden<std::pair<str, i32>>("pair<string,i32>{\"ab\",258}", {"ab", 258}, B("\x02\x00\x61\x62\x02\x01\x00\x00"));
+                         }});
+    goldens().push_back({"pair<u16,u16>", [] { golden<std::pair<u16, u16>>("pair<u16,u16>{1,2}", {1, 2}, B("\x01\x00\x02\x00")); }});
+    goldens().push_back({"map<u8,pair<u8,u32>>", [] {
+                             golden<std::map<u8, std::pair<u8, u32>>>("map<u8,pair<u8,u32>>{5:{6,7}}", {{5, {6, 7}}}, B("\x01\x00\x05\x06\x07\x00\x00\x00"));
+                         }});
     goldens().push_back({"vector<struct{u8,i32,u16}>", [] {
                              Rec<u8, i32, u16> a;
                              a.f = std::make_tuple((u8)1, (i32)2, (u16)3);
